@@ -97,7 +97,7 @@ func body(t *testing.T, c *vk.Ctx) {
 	c.Require(g.dSeqs > 0 && g.dReuse > 0, "vacuity: the pooled handshake object was never reused in (d)")
 	one := c.NShards <= 1
 	if one || c.Shard == 1%c.NShards {
-		c.Require(g.cControl > 0 && g.cRejected > 0, "vacuity: replay sub-check: controls accepted=%d, replays rejected=%d", g.cControl, g.cRejected)
+		c.Require(g.cControl > 0 && g.cRejected > 0 && g.cWarm > 0, "vacuity: replay sub-check: controls accepted=%d, replays rejected=%d, replays against a checker that accepted the genuine connection first=%d", g.cControl, g.cRejected, g.cWarm)
 	}
 	if one || c.Shard == 2%c.NShards {
 		c.Require(g.eCancelled > 0, "vacuity: no cancellation case ran")
